@@ -2,6 +2,7 @@ import PEval.Properties.C04Core
 import PEval.Properties.Pipeline
 import PEval.Properties.C04Dict
 import PEval.Properties.C04Tables
+import PEval.Properties.C04Scene
 /-!
 # C04 — AP, APH and mAP equal the interpolated precision-recall area, within [0,1] (root)
 
